@@ -79,6 +79,8 @@ func runQueue(f []string, out *bufio.Writer) {
 // Adders and readers run in goroutines.  Every snapshot is checked on the spot:
 //   - at most <capacity> messages, no duplicates;
 //   - per adder the sequence numbers are ascending and contiguous (a contiguous run of the addition order);
+//   - across snapshots: a message has the same immediate predecessor in every snapshot in which it is not the first
+//     (all snapshots are runs of ONE order of the additions);
 //   - with a single adder: the run ends at j with started-before-return >= j >= completed-before-call and
 //     has length min(capacity, j)  (consistent with the real-time order of the calls).
 //
@@ -98,6 +100,8 @@ func runQueueConc(f []string, out *bufio.Writer) {
 		mu.Unlock()
 	}
 	var snaps int64
+	var predMu sync.Mutex
+	pred := map[uint64]uint64{}
 	for a := 0; a < adders; a++ {
 		wg.Add(1)
 		go func(a int) {
@@ -130,6 +134,21 @@ func runQueueConc(f []string, out *bufio.Writer) {
 						return
 					}
 					last[a] = s
+				}
+				if len(snap) >= 2 {
+					predMu.Lock()
+					for i := 1; i < len(snap); i++ {
+						a1, s1 := untag(snap[i])
+						a0, s0 := untag(snap[i-1])
+						k, v := uint64(a1)<<32|uint64(s1), uint64(a0)<<32|uint64(s0)
+						if old, ok := pred[k]; ok && old != v {
+							predMu.Unlock()
+							report(fmt.Sprintf("message %d/%d follows %d/%d in one snapshot and %d/%d in another", a1, s1, a0, s0, old>>32, old&0xffffffff))
+							return
+						}
+						pred[k] = v
+					}
+					predMu.Unlock()
 				}
 				if adders == 1 {
 					n := int64(len(snap))
